@@ -50,6 +50,13 @@ THEOREMS = [
     'Nb.C16.position_restored_src',
     'Nb.C16.tck_file_roundtrip_parsed',
     'Nb.C16.tck_header_text_counterexample',
+    'Nb.C16.saved_names_from_tractogram',
+    'Nb.C16.trk_roundtrip_any_header',
+    'Nb.C16.name_table_inplace_counterexample',
+    'Nb.C16.view_history_items',
+    'Nb.C16.save_view_roundtrip',
+    'Nb.C16.tck_view_roundtrip',
+    'Nb.C16.trk_view_roundtrip',
 ]
 ASSUMPTIONS = [
     'hand-written Lean model of tck.py/trk.py/orientations.py (Model/C16.lean), tied to the code by the '
@@ -79,6 +86,18 @@ ASSUMPTIONS = [
     'np.linalg.inv = exact inverse; the lzaff stream keeps to signed-permutation x power-of-two affines, for which NumPy is exact',
     'phase 3: the TCK line-oriented header parser is modelled on ASCII bytes (str.strip/split white space incl. \\x1c-\\x1f, '
     'int() of plain digit strings only; the datatype checks and UTF-8 decoding are not modelled)',
+    'wave 3: the header handed to TrkFile(...) enters the model as the counts and the two ten-slot name tables it carries '
+    '(Model/C16_Save trkSaveItemsH); that `save` fills a fresh np.zeros(MAX, \'S20\') table and assigns the WHOLE field, and that the '
+    'empty-tractogram branch zeroes the three counts, is read off the AST of TrkFile.save on every run (Gen.trkSaveHeader_eq_model); '
+    'all other supplied fields (geometry) are the existing TrkGeom inputs',
+    'wave 3: ArraySequence is (buffer, offsets, lengths); indexing by slice / list / integer array / boolean mask / range is '
+    'resolved to positions by the harness with plain Python list semantics (NumPy index normalisation itself is not modelled); '
+    '`copy()` is the gather loop of array_sequence.py (hand-written, tied by the `view` stream); Tractogram.__getitem__ / copy / '
+    '__add__ / extend / apply_affine in place and the LazyTractogram constructors are exercised as HOW the saved tractogram was '
+    'built (oracle + correspondence of the file written), not modelled',
+    'wave 3: aliasing of yielded arrays with reader buffers is not modelled (values in the model are immutable): every history of '
+    'the tckr / trkr streams re-observes all kept items after the last action (LATE-DIFF token) and the public-API oracles consume '
+    'lazy results under the patterns each / keep / items / kth / interleave',
 ]
 RULE = ('streams: off (every header length 51..1200 + windows around each digit boundary of the offset up to 10^6); '
         'buf (requests 0..40 + random, via argument and via rebinding tck.MEGABYTE); tckw / tckf (whole file bytes) (0..n streamlines of 1..m '
@@ -97,7 +116,21 @@ RULE = ('streams: off (every header length 51..1200 + windows around each digit 
         'wrong magic, as raw bytes); lzaff (histories of 0..3 apply_affine/to_world on eager and lazy tractograms with '
         'affine_to_rasmm = random / unknown, then re-saved as TRK under a random header and as TCK); bigtck (oracle only: '
         'TCK files of 1..2.5 x the 4 MB buffer through the public API by path and file object, delimiter at/next to the '
-        'buffer boundary). A case is non-trivial when it has at least one '
+        'buffer boundary; lazy results collected before comparison). WAVE 3: every tckw / trk / trkh case says HOW the tractogram '
+        'handed to save was BUILT (fresh / reversed / permuted by list or integer array / argsort / strided slice / boolean mask / '
+        'reversed slice / view of a view / deepcopy / copy of a permuted view / a + b / a += b / from generators / LazyTractogram from '
+        'generator functions / LazyTractogram.from_tractogram of a (permuted) tractogram / saved once and re-loaded lazily or eagerly / any of these followed by an exact '
+        'apply_affine in place — logical content fixed, unequal lengths); tckw with the header of a previously LOADED TCK file '
+        '(stale count and offset); view (model-compared: histories of 1..3 slice / list / ndarray / mask / range / negative / '
+        'repeated-index steps and ArraySequence.copy / Tractogram.copy on 0..6 streamlines, then TckFile.save); tview (model-compared: '
+        'the items `iter(t.to_world(lazy=True))` yields — what both save methods write — for a tractogram with 0..3 named per-point / '
+        'per-streamline arrays after such a history); trkh (model-compared: '
+        'TrkFile.save under a header that already carries counts and name tables — the header of a reference TRK file loaded eagerly '
+        'or lazily with more / fewer / other / the same named arrays drawn from a common pool of 4 names, optionally with another '
+        'geometry put over it, or a hand-made dict with shuffled tables, empty slots before names, names in far slots and stale '
+        'counts — x tractograms of 0..4 streamlines x builds); consumer histories of tckr / trkr keep every yielded item and '
+        're-observe it at the end; the public-API loads are consumed as each / keep (list first) / items / kth / interleave (paths) '
+        'x buffers of 12..108 bytes. A case is non-trivial when it has at least one '
         'streamline / a non-default header; distinct by its full description.')
 
 warnings.simplefilter('ignore')
@@ -193,10 +226,65 @@ def mk_buf(req, via):
     return mk('buf', f'C16 buf {req}', {'req': req, 'via': via}, ('buf', req, via))
 
 
-def mk_tckw(L, sls, ras=None):
-    """`ras`: affine_to_rasmm (aff12) of the tractogram handed to save — its stored points are inv(ras)·sls"""
-    return mk('tckw', f'C16 tckw {L} {enc_sls(sls)}', {'L': L, 'sls': sls, 'ras': ras},
-              ('tckw', L, enc_sls(sls), tuple(ras or ())) if sls else None)
+def mk_tckw(L, sls, ras=None, build=None, bseed=0, hsrc=None):
+    """`ras`: affine_to_rasmm (aff12) of the tractogram handed to save — its stored points are inv(ras)·sls;
+    `build`: HOW the tractogram handed to save was built (see `built`; its logical content is always `sls`);
+    `hsrc`: 'loaded' = the header handed to save is the header of a previously LOADED TCK file (stale count / offset)"""
+    return mk('tckw', f'C16 tckw {L} {enc_sls(sls)}', {'L': L, 'sls': sls, 'ras': ras, 'build': build, 'bseed': bseed, 'hsrc': hsrc},
+              ('tckw', L, enc_sls(sls), tuple(ras or ()), build, hsrc) if sls else None)
+
+
+# ---- views: a step is ['slice', a, b, c] / ['list', idxs] / ['nd', idxs] / ['mask', bools] / ['range', a, b, c] /
+#      ['seqcopy'] (ArraySequence.copy) / ['deepcopy'] (Tractogram.copy)
+
+def resolve_step(n, st):
+    """positions (into a sequence of length n) a step selects — Python list semantics, independent of nibabel;
+    None for steps that keep the sequence as it is"""
+    k = st[0]
+    if k == 'slice':
+        return list(range(n))[slice(st[1], st[2], st[3])]
+    if k == 'range':
+        return list(range(st[1], st[2], st[3]))
+    if k in ('list', 'nd'):
+        return [i % n for i in st[1]] if n else []
+    if k == 'mask':
+        return [i for i, b in enumerate(st[1]) if b]
+    return None
+
+
+def py_index(st):
+    k = st[0]
+    if k == 'slice':
+        return slice(st[1], st[2], st[3])
+    if k == 'range':
+        return range(st[1], st[2], st[3])
+    if k == 'list':
+        return list(st[1])
+    if k == 'nd':
+        return np.array(st[1], dtype=np.int64 if len(st) < 3 else st[2])
+    if k == 'mask':
+        return np.array(st[1], dtype=bool)
+    raise ValueError(st)
+
+
+def resolve_steps(n, steps):
+    """(protocol tokens, final positions into the ORIGINAL sequence)"""
+    toks, cur = [], list(range(n))
+    for st in steps:
+        idx = resolve_step(len(cur), st)
+        if idx is None:
+            if st[0] == 'seqcopy':
+                toks.append('c')
+            continue
+        toks.append(enc_words(idx))
+        cur = [cur[i] for i in idx]
+    return (';'.join(toks) if toks else '-'), cur
+
+
+def mk_view(L, sls, steps):
+    toks, sel = resolve_steps(len(sls), steps)
+    return mk('view', f'C16 view {L} {enc_sls(sls)} {toks}', {'L': L, 'sls': sls, 'steps': steps},
+              ('view', L, enc_sls(sls), repr(steps)) if sel else None)
 
 
 def expected_out(L, count):
@@ -239,10 +327,40 @@ def mk_aff(g):
     return mk('aff', 'C16 aff ' + geom_tokens(g), {'g': g}, ('aff', geom_tokens(g)))
 
 
-def mk_trk(g, items, junk, ins_seed, ras=None):
+def mk_tview(items, steps, ins_seed):
+    """what `save` iterates over for a fresh tractogram (with named data) after a history of indexing steps"""
+    steps = [st for st in steps if st[0] != 'seqcopy']
+    toks, sel = resolve_steps(len(items), steps)
+    return mk('tview', 'C16 tview %s %s' % (enc_items(items), toks), {'items': items, 'steps': steps, 'ins': ins_seed},
+              ('tview', enc_items(items), repr(steps)) if sel else None)
+
+
+def mk_trk(g, items, junk, ins_seed, ras=None, build=None):
     return mk('trk', 'C16 trk %s %s' % (geom_tokens(g), enc_items(items)),
-              {'g': g, 'items': items, 'junk': junk, 'ins': ins_seed, 'ras': ras},
-              ('trk', geom_tokens(g), enc_items(items), tuple(ras or ())) if items else None)
+              {'g': g, 'items': items, 'junk': junk, 'ins': ins_seed, 'ras': ras, 'build': build},
+              ('trk', geom_tokens(g), enc_items(items), tuple(ras or ()), build) if items else None)
+
+
+def schema_fields(cols):
+    """the S20 name-table slots for (name, k) pairs — own encoder: sorted by name, `name` or `name NUL str(k)`"""
+    return [list(n) + ([0] + [ord(c) for c in str(k)] if k > 1 else []) for n, k in sorted((tuple(n), k) for n, k in cols)]
+
+
+def items_schema(items):
+    if not items:
+        return [], []
+    return ([(n, len(rows[0])) for n, rows in items[0][1]], [(n, len(ws)) for n, ws in items[0][2]])
+
+
+def mk_trkh(g, items, junk, ins_seed, sup, build=None):
+    """TRK save under a SUPPLIED header that already carries counts and name tables.  sup = {'mode': 'loaded' |
+    'loaded-lazy' | 'loaded+geom' | 'dict', 'itemsA': items of the file the header was loaded from (loaded modes),
+    'gA': its geometry ('loaded+geom'), 'sf'/'pf': the ten-slot tables as lists of byte lists, 'ns'/'np'/'n': counts}"""
+    line = 'C16 trkh %s %s %s %d %d %d %s' % (geom_tokens(g), ','.join(enc_name(f) for f in sup['sf']) or '-',
+                                             ','.join(enc_name(f) for f in sup['pf']) or '-', sup['ns'], sup['np'], sup['n'],
+                                             enc_items(items))
+    return mk('trkh', line, {'g': g, 'items': items, 'junk': junk, 'ins': ins_seed, 'sup': sup, 'build': build, 'ras': None},
+              ('trkh', line, sup['mode'], build))
 
 
 def mk_trkr(ns, np_, announced, junk, start, acts, words):
@@ -316,7 +434,13 @@ def case_from_data(d):
     if op == 'buf':
         return mk_buf(d['req'], d['via'])
     if op == 'tckw':
-        return mk_tckw(d['L'], d['sls'], d.get('ras'))
+        return mk_tckw(d['L'], d['sls'], d.get('ras'), d.get('build'), d.get('bseed', 0), d.get('hsrc'))
+    if op == 'view':
+        return mk_view(d['L'], d['sls'], d['steps'])
+    if op == 'tview':
+        return mk_tview([tuple(i) for i in d['items']], d['steps'], d['ins'])
+    if op == 'trkh':
+        return mk_trkh(d['g'], [tuple(i) for i in d['items']], d['junk'], d['ins'], d['sup'], d.get('build'))
     if op == 'tckf':
         return mk_tckf(d['L'], d['req'], d['sls'])
     if op == 'tckr':
@@ -330,7 +454,7 @@ def case_from_data(d):
     if op == 'aff':
         return mk_aff(d['g'])
     if op == 'trk':
-        return mk_trk(d['g'], [tuple(i) for i in d['items']], d['junk'], d['ins'], d.get('ras'))
+        return mk_trk(d['g'], [tuple(i) for i in d['items']], d['junk'], d['ins'], d.get('ras'), d.get('build'))
     if op == 'trkr':
         return mk_trkr(d['ns'], d['np'], d['announced'], d['junk'], d['start'], d['acts'], d['words'])
     if op == 'general':
@@ -405,7 +529,10 @@ def err_token(e):
 
 
 def run_history(gen, f, acts, show, value_tok='ERR:short'):
-    toks = []
+    """one token per consumer action.  Every yielded item is KEPT and shown a second time after the whole history
+    (a consumer that collects lazily yielded arrays): a token `LATE-DIFF:<k>` is appended when item k no longer
+    shows what it showed when it was yielded (it aliases a buffer the reader re-used)."""
+    toks, kept = [], []
     for a in acts:
         if a == 'c':
             gen.close()
@@ -413,7 +540,9 @@ def run_history(gen, f, acts, show, value_tok='ERR:short'):
         else:
             try:
                 it = next(gen)
-                toks.append('n:%s@%d' % (show(it), f.tell()))
+                txt = show(it)
+                kept.append((it, txt))
+                toks.append('n:%s@%d' % (txt, f.tell()))
             except StopIteration:
                 toks.append('n:stop@%d' % f.tell())
             except Exception as e:  # noqa: BLE001
@@ -421,6 +550,9 @@ def run_history(gen, f, acts, show, value_tok='ERR:short'):
                 if tok == 'ERR:short':
                     tok = value_tok
                 toks.append('n:%s@%d' % (tok, f.tell()))
+    for k, (it, txt) in enumerate(kept):
+        if show(it) != txt:
+            toks.append('LATE-DIFF:%d' % k)
     return ' '.join(toks)
 
 
@@ -452,28 +584,192 @@ def to_space(sls, ras):
     return out, R
 
 
-def build_tractogram(items, ins_seed, ras=None):
-    """real Tractogram from model items; dict insertion order shuffled deterministically"""
+BUILDS = ['fresh', 'rev', 'perm', 'perm_nd', 'sortlen', 'slice2', 'mask', 'revslice', 'viewofview', 'copy', 'permcopy',
+          'concat', 'extend', 'gen', 'lazy', 'lazyfrom', 'permlazyfrom', 'aff:fresh', 'aff:rev', 'aff:perm', 'aff:slice2', 'aff:mask',
+          'aff:lazy', 'aff:concat', 'reloaded', 'reloaded-eager', 'aff:reloaded']
+
+
+def built(mk, items, dummy_of, build, seed, reload=None):
+    """a tractogram whose LOGICAL content is `items`, obtained the way `build` says: `mk(items, gen=False, lazy=False)`
+    makes a fresh (Lazy)Tractogram from a list of items, `dummy_of(item)` an item of the same schema and a different
+    length used as filler that the view leaves out"""
+    import random
+    from nibabel.streamlines.tractogram import LazyTractogram
+    r = random.Random(seed)
+    n = len(items)
+    if build and build.startswith('aff:'):
+        # built as the rest of the name says, then moved IN PLACE (eager) / lazily by an exact affine: affine_to_rasmm
+        # follows, so the RAS+mm content is unchanged
+        t = built(mk, items, dummy_of, build[4:], seed, reload)
+        return t.apply_affine(aff_matrix(rand_aff12(random.Random(seed + 1))))
+    if not build or build == 'fresh' or n == 0:
+        return mk(items)
+
+    def scatter(p):     # base[p[j]] = items[j], so that base[p] is `items`
+        base = [None] * n
+        for j, i in enumerate(p):
+            base[i] = items[j]
+        return base
+    if build == 'rev':
+        return mk(items[::-1])[::-1]
+    if build in ('perm', 'perm_nd', 'permcopy', 'viewofview', 'sortlen', 'permlazyfrom'):
+        p = list(range(n))
+        r.shuffle(p)
+        t = mk(scatter(p))
+        if build == 'perm':
+            return t[p]
+        if build == 'perm_nd':
+            return t[np.array(p, dtype=r.choice(['int64', 'int32', 'uint8']))]
+        if build == 'permcopy':
+            return t[p].copy()
+        if build == 'permlazyfrom':
+            return LazyTractogram.from_tractogram(t[p])
+        if build == 'sortlen':
+            key = np.empty(n)
+            key[p] = np.arange(n)
+            return t[np.argsort(key)]
+        return t[::-1][[n - 1 - i for i in p]]
+    if build == 'slice2':
+        base = []
+        for it in items:
+            base += [it, dummy_of(it)]
+        return mk(base)[::2]
+    if build == 'mask':
+        base, mask = [], []
+        for it in items:
+            while r.random() < 0.4:
+                base.append(dummy_of(it))
+                mask.append(False)
+            base.append(it)
+            mask.append(True)
+        if r.random() < 0.5:
+            base.append(dummy_of(items[-1]))
+            mask.append(False)
+        return mk(base)[np.array(mask)]
+    if build == 'revslice':
+        return mk([dummy_of(items[0])] + items[::-1] + [dummy_of(items[-1])])[-2:0:-1]
+    if build == 'copy':
+        return mk(items).copy()
+    if build in ('concat', 'extend'):
+        if n < 2:
+            return mk(items)
+        h = r.randint(1, n - 1)
+        a, b = mk(items[:h]), mk(items[h:])
+        if build == 'concat':
+            return a + b
+        a += b
+        return a
+    if build == 'gen':
+        return mk(items, gen=True)
+    if build == 'lazy':
+        return mk(items, lazy=True)
+    if build == 'lazyfrom':
+        return LazyTractogram.from_tractogram(mk(items))
+    if build in ('reloaded', 'reloaded-eager'):
+        # saved once, LOADED (lazily / eagerly), and that tractogram is handed to save again
+        return reload(mk(items), build == 'reloaded')
+    raise ValueError(build)
+
+
+def dummy_item(it):
+    pts, dpp, dps = it
+    return (list(pts) + [pts[0]], [(n, list(rows) + [rows[0]]) for n, rows in dpp], dps)
+
+
+def build_tractogram(items, ins_seed, ras=None, build=None):
+    """real Tractogram from model items; dict insertion order shuffled deterministically; `build`: see `built`"""
     _, _, Tractogram = _nib()
     import random
-    r = random.Random(ins_seed)
-    sls = [bits_to_f32([w for t in it[0] for w in t]) for it in items]
-    dpp, dps = {}, {}
-    if items:
-        pn = [n for n, _ in items[0][1]]
-        sn = [n for n, _ in items[0][2]]
-        r.shuffle(pn)
-        r.shuffle(sn)
-        for n in pn:
-            key = bytes(n).decode('latin1')
-            dpp[key] = [np.array([r_ for r_ in dict((tuple(a), b) for a, b in it[1])[tuple(n)]], dtype='<u4')
-                        .view('<f4').reshape(len(it[0]), -1) for it in items]
-        for n in sn:
-            key = bytes(n).decode('latin1')
-            dps[key] = [np.array(dict((tuple(a), b) for a, b in it[2])[tuple(n)], dtype='<u4').view('<f4')
-                        for it in items]
-    sls, R = to_space(sls, ras)
-    return Tractogram(sls, data_per_streamline=dps or None, data_per_point=dpp or None, affine_to_rasmm=R)
+
+    def mk(items, gen=False, lazy=False):
+        r = random.Random(ins_seed)
+        sls = [bits_to_f32([w for t in it[0] for w in t]) for it in items]
+        dpp, dps = {}, {}
+        if items:
+            pn = [n for n, _ in items[0][1]]
+            sn = [n for n, _ in items[0][2]]
+            r.shuffle(pn)
+            r.shuffle(sn)
+            for n in pn:
+                key = bytes(n).decode('latin1')
+                dpp[key] = [np.array([r_ for r_ in dict((tuple(a), b) for a, b in it[1])[tuple(n)]], dtype='<u4')
+                            .view('<f4').reshape(len(it[0]), -1) for it in items]
+            for n in sn:
+                key = bytes(n).decode('latin1')
+                dps[key] = [np.array(dict((tuple(a), b) for a, b in it[2])[tuple(n)], dtype='<u4').view('<f4')
+                            for it in items]
+        sls, R = to_space(sls, ras)
+        if lazy:
+            from nibabel.streamlines.tractogram import LazyTractogram
+            return LazyTractogram(lambda: (x.copy() for x in sls), {k: (lambda v=v: iter(v)) for k, v in dps.items()},
+                                  {k: (lambda v=v: iter(v)) for k, v in dpp.items()}, affine_to_rasmm=R)
+        if gen:
+            return Tractogram((x for x in sls), data_per_streamline={k: (x for x in v) for k, v in dps.items()} or None,
+                              data_per_point={k: (x for x in v) for k, v in dpp.items()} or None, affine_to_rasmm=R)
+        return Tractogram(sls, data_per_streamline=dps or None, data_per_point=dpp or None, affine_to_rasmm=R)
+    def reload(t, lazy):
+        _, trk, _ = _nib()
+        b = io.BytesIO()
+        trk.TrkFile(t).save(b)
+        return trk.TrkFile.load(io.BytesIO(b.getvalue()), lazy_load=lazy).tractogram
+    return built(mk, list(items), dummy_item, build, ins_seed, reload)
+
+
+def build_tck_tractogram(d, sls=None):
+    """the tractogram a `tckw` / `view` case hands to TckFile (logical content: d['sls'])"""
+    _, _, Tractogram = _nib()
+
+    def mk(sl_bits, gen=False, lazy=False):
+        arrs = [bits_to_f32([w for t in s_ for w in t]) for s_ in sl_bits]
+        arrs, R = to_space(arrs, d.get('ras'))
+        if lazy:
+            from nibabel.streamlines.tractogram import LazyTractogram
+            return LazyTractogram(lambda: (x.copy() for x in arrs), affine_to_rasmm=R)
+        return Tractogram((x for x in arrs) if gen else arrs, affine_to_rasmm=R)
+    def reload(t, lazy):
+        tck, _, _ = _nib()
+        b = io.BytesIO()
+        tck.TckFile(t).save(b)
+        return tck.TckFile.load(io.BytesIO(b.getvalue()), lazy_load=lazy).tractogram
+    return built(mk, list(d['sls'] if sls is None else sls), lambda s_: list(s_) + [s_[0]], d.get('build'), d.get('bseed', 0), reload)
+
+
+class SetupMismatch(Exception):
+    pass
+
+
+def pad10(fields):
+    return [bytes(f) for f in fields] + [b''] * (10 - len(fields))
+
+
+def case_header(d):
+    """the header a `trk` / `trkh` case hands to TrkFile(tractogram, header=…)"""
+    _, trk, _ = _nib()
+    from nibabel.streamlines.header import Field
+    sup = d.get('sup')
+    if not sup:
+        return geom_header(d['g'])
+    if sup['mode'] == 'dict':
+        h = geom_header(d['g'])
+        h['scalar_name'] = np.array(pad10(sup['sf']), dtype='S20')
+        h['property_name'] = np.array(pad10(sup['pf']), dtype='S20')
+        h[Field.NB_SCALARS_PER_POINT] = sup['ns']
+        h[Field.NB_PROPERTIES_PER_STREAMLINE] = sup['np']
+        h[Field.NB_STREAMLINES] = sup['n']
+        return h
+    gA = sup['gA'] if sup['mode'] == 'loaded+geom' else d['g']
+    b = io.BytesIO()
+    trk.TrkFile(build_tractogram([tuple(i) for i in sup['itemsA']], d['ins'] + 1), header=geom_header(gA)).save(b)
+    hdr = trk.TrkFile.load(io.BytesIO(b.getvalue()), lazy_load=(sup['mode'] == 'loaded-lazy')).header
+    got = ([list(bytes(x)) for x in hdr['scalar_name']], [list(bytes(x)) for x in hdr['property_name']],
+           int(hdr[Field.NB_SCALARS_PER_POINT]), int(hdr[Field.NB_PROPERTIES_PER_STREAMLINE]), int(hdr[Field.NB_STREAMLINES]))
+    want = ([list(x) for x in pad10(sup['sf'])], [list(x) for x in pad10(sup['pf'])], sup['ns'], sup['np'], sup['n'])
+    if got != want:
+        raise SetupMismatch(f'header of the loaded reference file carries {got}, expected {want}')
+    if sup['mode'] == 'loaded+geom':
+        hdr = dict(hdr)
+        hdr.update(geom_header(d['g']))
+    return hdr
 
 
 def items_of_tractogram(t):
@@ -551,12 +847,27 @@ def impl(case):
             finally:
                 tck.MEGABYTE = old
         return str(f.sizes[0])
-    if op == 'tckw':
-        sls = [bits_to_f32([w for t in s for w in t]) for s in d['sls']]
-        sls, R = to_space(sls, d.get('ras'))
-        t = Tractogram(sls, affine_to_rasmm=R)
+    if op in ('tckw', 'view'):
+        if op == 'view':
+            t = Tractogram([bits_to_f32([w for t in s_ for w in t]) for s_ in d['sls']], affine_to_rasmm=np.eye(4))
+            for st in d['steps']:
+                if st[0] == 'seqcopy':
+                    t = Tractogram(t.streamlines.copy(), affine_to_rasmm=np.eye(4))
+                elif st[0] == 'deepcopy':
+                    t = t.copy()
+                else:
+                    t = t[py_index(st)]
+        else:
+            t = build_tck_tractogram(d)
+        hdr_in = tck_header_for(d['L'])
+        if d.get('hsrc') == 'loaded':
+            # the header of a previously LOADED file (other count, other offset, reader-private keys)
+            b0 = io.BytesIO()
+            other = [bits_to_f32([1, 2, 3] * (k + 1)) for k in range(len(d['sls']) + 2)]
+            TckFile(Tractogram(other, affine_to_rasmm=np.eye(4)), header=tck_header_for(d['L'])).save(b0)
+            hdr_in = TckFile.load(io.BytesIO(b0.getvalue()), lazy_load=bool(d.get('bseed', 0) % 2)).header
         b = io.BytesIO()
-        TckFile(t, header=tck_header_for(d['L'])).save(b)
+        TckFile(t, header=hdr_in).save(b)
         raw = b.getvalue()
         case.extra['raw'] = raw
         n = int(re.search(rb'\nfile: \. (\d+)\n', raw).group(1))
@@ -565,7 +876,7 @@ def impl(case):
         if len(body) % 12:
             return f'{n} {real} ragged'
         data = [int(x) for x in np.frombuffer(body, '<u4')]
-        if d.get('ras'):
+        if d.get('ras') or (d.get('build') or '').startswith('aff:'):
             data = [canon_zero(x) for x in data]
         return f'{n} {real} ' + enc_sl([data[i:i + 3] for i in range(0, len(data), 3)])
     if op == 'tckf':
@@ -648,13 +959,30 @@ def impl(case):
             return 'ERR:ValueError'
         case.extra['a'], case.extra['b'] = a, b
         return aff12(a) + ' ' + aff12(b)
-    if op == 'trk':
-        t = build_tractogram(d['items'], d['ins'], d.get('ras'))
+    if op == 'tview':
+        t = build_tractogram([tuple(i) for i in d['items']], d['ins'])
+        for st in d['steps']:
+            t = t.copy() if st[0] == 'deepcopy' else t[py_index(st)]
+        its = []
+        for it in list(t.to_world(lazy=True)):       # exactly what both `save` methods iterate over; items kept first
+            pts = [tuple(row) for row in f32_to_bits(np.asarray(it.streamline))]
+            a_ = [(list(k.encode('latin1')), [words_of(r) for r in np.asarray(v).reshape(len(pts), -1)])
+                  for k, v in it.data_for_points.items()]
+            b_ = [(list(k.encode('latin1')), words_of(v)) for k, v in it.data_for_streamline.items()]
+            its.append((pts, a_, b_))
+        case.extra['its'] = its
+        return enc_items(its)
+    if op in ('trk', 'trkh'):
+        t = build_tractogram(d['items'], d['ins'], d.get('ras'), d.get('build'))
         junk = junk_bytes(d['junk'])
         b = io.BytesIO()
         b.write(junk)
         try:
-            TrkFile(t, header=geom_header(d['g'])).save(b)
+            hdr_in = case_header(d)
+        except SetupMismatch as e:
+            return 'SETUP-MISMATCH ' + str(e)
+        try:
+            TrkFile(t, header=hdr_in).save(b)
         except ValueError:
             return 'ERR:ValueError'
         except ZeroDivisionError:
@@ -859,25 +1187,64 @@ def finite_bits(sls):
     return all(((w >> 23) & 0xFF) != 0xFF for s in sls for t in s for w in t)
 
 
-def load_variants(cls, raw, start, tmpdir=None):
-    """yield (label, streamlines-as-bit-lists or exception, position-ok) for eager/lazy x fileobj[/path]"""
+def consume(tf, how):
+    """the streamlines of a loaded TractogramFile as bit lists under a CONSUMPTION pattern:
+    each  = convert every streamline as soon as it is yielded (streaming consumer);
+    keep  = `list(tf.streamlines)` first, convert afterwards (a consumer that collects the lazily yielded arrays);
+    items = `list(tf.tractogram)` first (TractogramItems kept), convert afterwards;
+    kth   = keep every second array, convert the others at once;
+    interleave = two iterators over `.streamlines` advanced alternately, arrays kept (own file handle each: paths only)"""
+    conv = lambda a: f32_to_bits(np.asarray(a))   # noqa: E731
+    if how == 'each':
+        return [conv(x) for x in tf.streamlines]
+    if how == 'keep':
+        return [conv(x) for x in list(tf.streamlines)]
+    if how == 'items':
+        return [conv(it.streamline) for it in list(tf.tractogram)]
+    if how == 'kth':
+        got = [x if i % 2 else conv(x) for i, x in enumerate(tf.streamlines)]
+        return [conv(x) if i % 2 else x for i, x in enumerate(got)]
+    if how == 'interleave':
+        a, b = iter(tf.streamlines), iter(tf.streamlines)
+        A, B = [], []
+        for x in a:
+            A.append(x)
+            y = next(b, None)
+            if y is not None:
+                B.append(y)
+        B.extend(b)
+        A, B = [conv(x) for x in A], [conv(x) for x in B]
+        return A if A == B else 'interleaved iterators differ: %s / %s' % (str(A)[:80], str(B)[:80])
+    raise ValueError(how)
+
+
+LAZY_CONSUMERS = ('each', 'keep', 'items', 'kth')
+
+
+ALL_VARIANTS = ((False, 'each'), (False, 'keep')) + tuple((True, h) for h in LAZY_CONSUMERS)
+BASIC_VARIANTS = ((False, 'each'), (True, 'each'), (True, 'keep'))
+
+
+def load_variants(cls, raw, start, variants=ALL_VARIANTS):
+    """yield (label, streamlines-as-bit-lists or exception, position-ok) for eager/lazy x consumption pattern, fileobj"""
     res = []
-    for lazy in (False, True):
+    for lazy, how in variants:
+        label = ('lazy' if lazy else 'eager') + ('' if how == 'each' else '/' + how)
         f = io.BytesIO(raw)
         f.seek(start)
         try:
             tf = cls.load(f, lazy_load=lazy)
             pass  # CPython closes an unreferenced generator at once (refcount); no gc.collect() needed
             p0 = f.tell()
-            sl = [f32_to_bits(np.asarray(s)) for s in tf.streamlines]
+            sl = consume(tf, how)
             p1 = f.tell()
-            if lazy:   # a second pass must give the same
-                sl2 = [f32_to_bits(np.asarray(s)) for s in tf.streamlines]
+            if lazy and how in ('each', 'keep'):   # a second pass must give the same
+                sl2 = consume(tf, how)
                 if sl2 != sl:
                     sl = 'second lazy pass differs'
-            res.append(('lazy' if lazy else 'eager', sl, (p0, p1), tf))
+            res.append((label, sl, (p0, p1), tf))
         except Exception as e:  # noqa: BLE001
-            res.append(('lazy' if lazy else 'eager', e, (f.tell(), f.tell()), None))
+            res.append((label, e, (f.tell(), f.tell()), None))
     return res
 
 
@@ -938,7 +1305,7 @@ def oracle(case, out):
         if b <= 0 or b % 12:
             return f'TCK reader buffer of {b} bytes is not a positive multiple of 12 (request {d["req"]})'
         return None
-    if op == 'tckw':
+    if op in ('tckw', 'view'):
         if out.startswith('ERR'):
             return f'TckFile.save failed: {out}'
         n, real, _ = out.split(' ', 2)
@@ -946,35 +1313,52 @@ def oracle(case, out):
             return f'TCK file announces data offset {n} but data start at {real} (header text length {d["L"]})'
         if not finite_bits(d['sls']):
             return None
-        want = [[list(t) for t in s] for s in d['sls'] if len(s)]
+        if op == 'view':
+            _, sel = resolve_steps(len(d['sls']), d['steps'])
+            logical = [d['sls'][i] for i in sel]
+            how_built = f' [tractogram = Tractogram(sls) after {d["steps"]}]'
+        else:
+            logical = d['sls']
+            how_built = f' [tractogram built as {d.get("build")!r}, header source {d.get("hsrc")!r}]' if d.get('build') or d.get('hsrc') else ''
+        want = [[list(t) for t in s] for s in logical if len(s)]
         raw = ex['raw']
-        for start in (0, 7, len(raw)):
-            for label, sl, pos, _ in load_variants(TckFile, raw, start):
+        for start in ((0, 7, len(raw)) if op == 'tckw' else (0,)):
+            for label, sl, pos, _ in load_variants(TckFile, raw, start, (ALL_VARIANTS if op == 'tckw' else BASIC_VARIANTS) if start == 0 else ((False, 'each'), (True, 'keep'))):
                 if isinstance(sl, Exception):
-                    return f'TCK {label} load of a saved tractogram raised {sl!r}'
+                    return f'TCK {label} load of a saved tractogram raised {sl!r}' + how_built
                 if sl != want:
-                    return f'TCK {label} load != saved streamlines (bit patterns): got {str(sl)[:150]} want {str(want)[:150]}'
+                    return f'TCK {label} load != saved streamlines (bit patterns): got {str(sl)[:150]} want {str(want)[:150]}' + how_built
                 if pos != (start, start):
                     return f'TCK {label} load from a file object at {start} left it at {pos[0]} (after load) / {pos[1]} (after iteration)'
-        for mb in (0, 3, 7, 25):    # buffers of 12, 24, 36, 108 bytes through the public load
+        # buffers of 12, 24, 36, 108 bytes through the public load, each with a consumer that KEEPS the lazy arrays
+        pick = (d['L'] + len(raw)) % 2
+        for mb, extra in (((0, 'each'), (7, 'kth')) if pick else ((3, 'items'), (25, 'each'))) if op == 'tckw' else ((3, 'each'), (25, 'kth')):
             old = tck.MEGABYTE
             tck.MEGABYTE = mb
             try:
-                for label, sl, pos, _ in load_variants(TckFile, raw, 0):
+                for label, sl, pos, _ in load_variants(TckFile, raw, 0, (((False, 'each'),) if mb in (0, 25) else ()) + ((True, 'keep'), (True, extra))):
                     if isinstance(sl, Exception) or sl != want:
                         return f'TCK {label} load depends on the buffer size (MEGABYTE={mb}): {str(sl)[:200]} want {str(want)[:150]}'
             finally:
                 tck.MEGABYTE = old
-        if (d['L'] + len(d['sls'])) % 5 == 0:
+        if op == 'tckw' and (d['L'] + len(d['sls'])) % 5 == 0:
             with tempfile.TemporaryDirectory() as tmp:
                 p = os.path.join(tmp, 'a.tck')
                 import nibabel as nib
-                t = Tractogram([bits_to_f32([w for t_ in s for w in t_]) for s in d['sls']], affine_to_rasmm=np.eye(4))
-                nib.streamlines.save(t, p, header=tck_header_for(d['L']))
-                for lazy in (False, True):
-                    got = [f32_to_bits(np.asarray(s)) for s in nib.streamlines.load(p, lazy_load=lazy).streamlines]
-                    if got != want:
-                        return f'TCK save/load by path (lazy={lazy}) differs: {str(got)[:150]} want {str(want)[:150]}'
+                nib.streamlines.save(build_tck_tractogram(dict(d, ras=None)), p, header=tck_header_for(d['L']))
+                for mb in (None, 5):
+                    old = tck.MEGABYTE
+                    if mb is not None:
+                        tck.MEGABYTE = mb
+                    try:
+                        for lazy in (False, True):
+                            for how in (('each', 'keep', 'items', 'kth', 'interleave') if lazy else ('each',)):
+                                got = consume(nib.streamlines.load(p, lazy_load=lazy), how)
+                                if got != want:
+                                    return (f'TCK save/load by path (lazy={lazy}, consumer {how}, MEGABYTE={mb}) differs: '
+                                            f'{str(got)[:150]} want {str(want)[:150]}') + how_built
+                    finally:
+                        tck.MEGABYTE = old
         return None
     if op == 'tckf':
         raw = ex['raw']
@@ -989,6 +1373,11 @@ def oracle(case, out):
     if op == 'tckr':
         want, ok = ref_tck_parse(d['data'])
         toks = out.split(' ') if out else []
+        late = [t for t in toks if t.startswith('LATE-DIFF')]
+        if late:
+            return (f'TCK reader (buffer request {d["req"]}): streamline number {late[0].split(":")[1]} yielded by the lazy reader '
+                    f'changed after later reads (history {d["acts"]}) — a consumer that keeps the arrays gets different coordinates')
+        toks = [t for t in toks if not t.startswith('LATE-DIFF')]
         # items delivered, in order, must be a prefix of the reference parse (valid, non-ragged files: all of it)
         got = [t for t in toks if t.startswith('n:') and not t.startswith('n:stop') and not t.startswith('n:ERR')]
         for i, t in enumerate(got):
@@ -1039,10 +1428,30 @@ def oracle(case, out):
             if got != want:
                 return f'trackvis->rasmm affine maps voxmm {p} to {got}, reference {want} ({g})'
         return None
-    if op == 'trk':
+    if op == 'tview':
         items = [tuple(i) for i in d['items']]
+        _, sel = resolve_steps(len(items), d['steps'])
+
+        def norm1(its):
+            return [([tuple(t) for t in pts], sorted((list(n), [list(r) for r in rows]) for n, rows in a),
+                     sorted((list(n), list(ws)) for n, ws in b)) for pts, a, b in its]
+        want = norm1([items[i] for i in sel])
+        if norm1(ex.get('its', [])) != want:
+            return (f'iterating tractogram{d["steps"]}.to_world(lazy=True) (what save writes) yields '
+                    f'{str(norm1(ex.get("its", [])))[:200]} but the selected items are {str(want)[:200]}')
+        return None
+    if op in ('trk', 'trkh'):
+        items = [tuple(i) for i in d['items']]
+        ctx = ''
+        if d.get('build'):
+            ctx += f' [tractogram built as {d["build"]!r}]'
+        if d.get('sup'):
+            ctx += (f' [header handed to save: {d["sup"]["mode"]}, carrying scalar_name={[bytes(f) for f in d["sup"]["sf"]]} '
+                    f'property_name={[bytes(f) for f in d["sup"]["pf"]]} counts {d["sup"]["ns"]}/{d["sup"]["np"]}/{d["sup"]["n"]}]')
+        if out.startswith('SETUP-MISMATCH'):
+            return 'TRK reference file for the supplied header: ' + out
         if out.startswith('ERR'):
-            return f'TrkFile.save failed on a valid tractogram: {out}'
+            return f'TrkFile.save failed on a valid tractogram: {out}' + ctx
         if 'load=ERR' in out:
             return f'TrkFile.load failed on a saved tractogram: {out[-80:]}'
         want = [([tuple(canon_zero(w) for w in t) for t in it[0]], sorted((list(n), [list(r) for r in rows]) for n, rows in it[1]),
@@ -1053,7 +1462,7 @@ def oracle(case, out):
                      sorted((list(n), list(ws)) for n, ws in b)) for pts, a, b in its]
         got = norm(ex['loaded'])
         if got != want:
-            return f'TRK eager load != saved tractogram: got {str(got)[:200]} want {str(want)[:200]}'
+            return f'TRK eager load != saved tractogram: got {str(got)[:200]} want {str(want)[:200]}' + ctx
         junk = d['junk']
         if ex['pos_eager'] != junk:
             return f'TRK eager load from a file object at {junk} left it at {ex["pos_eager"]}'
@@ -1077,7 +1486,7 @@ def oracle(case, out):
             b = [(list(k.encode('latin1')), words_of(v[i])) for k, v in ldps.items()]
             lazy_items.append((pts, a, b))
         if norm(lazy_items) != want:
-            return f'TRK lazy load != eager load: {str(norm(lazy_items))[:200]} want {str(want)[:200]}'
+            return f'TRK lazy load != eager load: {str(norm(lazy_items))[:200]} want {str(want)[:200]}' + ctx
         sl2 = [[tuple(canon_zero(w) for w in row) for row in f32_to_bits(np.asarray(s))] for s in lz.streamlines]
         if sl2 != [w[0] for w in want] or f.tell() != junk:
             return f'TRK second lazy .streamlines pass differs or moved the file position ({f.tell()} vs {junk})'
@@ -1085,7 +1494,7 @@ def oracle(case, out):
             import nibabel as nib
             with tempfile.TemporaryDirectory() as tmp:
                 p = os.path.join(tmp, 'a.trk')
-                nib.streamlines.save(build_tractogram(items, d['ins'], d.get('ras')), p, header=geom_header(d['g']))
+                nib.streamlines.save(build_tractogram(items, d['ins'], d.get('ras'), d.get('build')), p, header=case_header(d))
                 for lazy in (False, True):
                     t = nib.streamlines.load(p, lazy_load=lazy).tractogram
                     if lazy:
@@ -1093,10 +1502,10 @@ def oracle(case, out):
                                        data_per_point={k: list(v) for k, v in t.data_per_point.items()},
                                        data_per_streamline={k: list(v) for k, v in t.data_per_streamline.items()})
                     if norm(items_of_tractogram(t)) != want:
-                        return f'TRK save/load by path (lazy={lazy}) differs from the saved tractogram'
+                        return f'TRK save/load by path (lazy={lazy}) differs from the saved tractogram' + ctx
         # iterating the lazily loaded tractogram itself (what a re-save does) must give the same RAS+mm items
         it_items = []
-        for it in lz.tractogram:
+        for it in list(lz.tractogram):      # the items are KEPT first, converted afterwards
             pts = [tuple(canon_zero(w) for w in row) for row in f32_to_bits(np.asarray(it.streamline))]
             a = [(list(k.encode('latin1')), [words_of(r) for r in np.asarray(v).reshape(len(pts), -1)])
                  for k, v in it.data_for_points.items()]
@@ -1127,6 +1536,9 @@ def oracle(case, out):
         return None
     if op == 'trkr':
         toks = out.split(' ') if out else []
+        late = [t for t in toks if t.startswith('LATE-DIFF')]
+        if late:
+            return f'TRK reader: record number {late[0].split(":")[1]} yielded by the lazy reader changed after later reads'
         acts = d['acts']
         closed = 'c' in acts or any(t.startswith('n:stop') or t.startswith('n:ERR') for t in toks)
         if closed and ex.get('final') != d['start']:
@@ -1267,7 +1679,8 @@ def oracle_bigtck(d):
                     tf = fn()
                     n = 0
                     off = 0
-                    for got in tf.streamlines:
+                    # lazily loaded streamlines are COLLECTED first (a consumer that keeps the arrays), then compared
+                    for got in (list(tf.streamlines) if label in ('path lazy=True', 'fileobj lazy') else tf.streamlines):
                         got = np.asarray(got)
                         if n >= len(lens):
                             return f'big TCK ({label}): more streamlines than the {len(lens)} saved'
@@ -1329,7 +1742,7 @@ def oracle_general(d):
         if mb is not None:
             tck.MEGABYTE = mb
         try:
-            for label, sl, pos, tf in load_variants(cls, raw, pos0):
+            for label, sl, pos, tf in load_variants(cls, raw, pos0, BASIC_VARIANTS + ((True, 'items'),) if mb is None else ((False, 'each'), (True, 'keep'))):
                 if isinstance(sl, Exception):
                     return f'{d["fmt"]} {label} load raised {sl!r}'
                 if pos != (pos0, pos0):
@@ -1393,12 +1806,14 @@ def shrink_candidates(case):
     if op == 'tckw':
         sls = d['sls']
         for i in range(len(sls)):
-            yield mk_tckw(d['L'], sls[:i] + sls[i + 1:])
+            yield mk_tckw(d['L'], sls[:i] + sls[i + 1:], d.get('ras'), d.get('build'), d.get('bseed', 0), d.get('hsrc'))
         for i, s in enumerate(sls):
             if len(s) > 1:
-                yield mk_tckw(d['L'], sls[:i] + [s[:-1]] + sls[i + 1:])
+                yield mk_tckw(d['L'], sls[:i] + [s[:-1]] + sls[i + 1:], d.get('ras'), d.get('build'), d.get('bseed', 0), d.get('hsrc'))
         if d['L'] != 51:
-            yield mk_tckw(51, sls)
+            yield mk_tckw(51, sls, d.get('ras'), d.get('build'), d.get('bseed', 0), d.get('hsrc'))
+        if d.get('build') or d.get('hsrc') or d.get('ras'):
+            yield mk_tckw(d['L'], sls)
     elif op == 'tckr':
         data = d['data']
         if len(d['acts']) > 1:
@@ -1411,15 +1826,34 @@ def shrink_candidates(case):
         items = [tuple(i) for i in d['items']]
         for i in range(len(items)):
             if len(items) > 1:
-                yield mk_trk(d['g'], items[:i] + items[i + 1:], d['junk'], d['ins'])
+                yield mk_trk(d['g'], items[:i] + items[i + 1:], d['junk'], d['ins'], d.get('ras'), d.get('build'))
         if d['junk']:
-            yield mk_trk(d['g'], items, 0, d['ins'])
+            yield mk_trk(d['g'], items, 0, d['ins'], d.get('ras'), d.get('build'))
         if any(it[1] or it[2] for it in items):
-            yield mk_trk(d['g'], [(it[0], [], []) for it in items], d['junk'], d['ins'])
+            yield mk_trk(d['g'], [(it[0], [], []) for it in items], d['junk'], d['ins'], d.get('ras'), d.get('build'))
         for i, it in enumerate(items):
             if len(it[0]) > 1:
                 it2 = (it[0][:-1], [(n, rows[:-1]) for n, rows in it[1]], it[2])
-                yield mk_trk(d['g'], items[:i] + [it2] + items[i + 1:], d['junk'], d['ins'])
+                yield mk_trk(d['g'], items[:i] + [it2] + items[i + 1:], d['junk'], d['ins'], d.get('ras'), d.get('build'))
+    elif op == 'trkh':
+        items = [tuple(i) for i in d['items']]
+        for i in range(len(items)):
+            if len(items) > 1:
+                yield mk_trkh(d['g'], items[:i] + items[i + 1:], d['junk'], d['ins'], d['sup'], d.get('build'))
+        if d['junk'] or d.get('build'):
+            yield mk_trkh(d['g'], items, 0, d['ins'], d['sup'], None)
+        for i, it in enumerate(items):
+            if len(it[0]) > 1:
+                it2 = (it[0][:-1], [(n, rows[:-1]) for n, rows in it[1]], it[2])
+                yield mk_trkh(d['g'], items[:i] + [it2] + items[i + 1:], d['junk'], d['ins'], d['sup'], d.get('build'))
+    elif op == 'view':
+        if len(d['steps']) > 1:
+            yield mk_view(d['L'], d['sls'], d['steps'][:-1])
+            if resolve_step(len(d['sls']), d['steps'][0]) is None:
+                yield mk_view(d['L'], d['sls'], d['steps'][1:])
+        for i, s_ in enumerate(d['sls']):
+            if len(s_) > 1:
+                yield mk_view(d['L'], d['sls'][:i] + [s_[:-1]] + d['sls'][i + 1:], d['steps'])
     elif op == 'trkr':
         if len(d['acts']) > 1:
             yield mk_trkr(d['ns'], d['np'], d['announced'], d['junk'], d['start'], d['acts'][:-1], d['words'])
@@ -1489,6 +1923,83 @@ def rand_items(rng, nmax, mmax, kmax):
         dps = [(list(nm), [qbits(rng.randint(-99, 99)) for _ in range(k)]) for nm, k in zip(snames, sk)]
         items.append((pts, dpp, dps))
     return items
+
+
+def rand_items_with(rng, pcols, scols, n, mmax):
+    """n items with the given (name, k) per-point / per-streamline schema (sorted by name)"""
+    pcols, scols = sorted((tuple(a), k) for a, k in pcols), sorted((tuple(a), k) for a, k in scols)
+    items = []
+    for _ in range(n):
+        m = rng.randint(1, mmax)
+        pts = [rand_point(rng, 32) for _ in range(m)]
+        dpp = [(list(nm), [[qbits(rng.randint(-99, 99)) for _ in range(k)] for _ in range(m)]) for nm, k in pcols]
+        dps = [(list(nm), [qbits(rng.randint(-99, 99)) for _ in range(k)]) for nm, k in scols]
+        items.append((pts, dpp, dps))
+    return items
+
+
+def rand_view_steps(rng, n):
+    """a history of view-producing steps on a sequence of n elements"""
+    steps, cur = [], n
+    for _ in range(rng.choice([1, 1, 2, 2, 3])):
+        r = rng.random()
+        if r < 0.12:
+            steps.append(['seqcopy'])
+            continue
+        if r < 0.17:
+            steps.append(['deepcopy'])
+            continue
+        if cur == 0:
+            break
+        k = rng.choice(['rev', 'perm', 'perm', 'sub', 'slice', 'mask', 'range', 'dup', 'neg'])
+        if k == 'rev':
+            st = ['slice', None, None, -1]
+        elif k == 'perm':
+            p = list(range(cur))
+            rng.shuffle(p)
+            st = [rng.choice(['list', 'nd']), p]
+        elif k == 'sub':
+            st = [rng.choice(['list', 'nd']), [rng.randrange(cur) for _ in range(rng.randint(1, cur))]]
+        elif k == 'dup':
+            st = ['list', [rng.randrange(cur) for _ in range(cur + rng.randint(0, 2))]]
+        elif k == 'neg':
+            st = ['list', [-1 - i for i in range(cur)]]
+        elif k == 'slice':
+            st = ['slice', rng.choice([None, 0, 1, -2]), rng.choice([None, cur, -1, cur - 1]), rng.choice([None, 1, 2, -1, -2])]
+        elif k == 'range':
+            st = ['range', cur - 1, -1, -1] if rng.random() < 0.5 else ['range', 0, cur, 2]
+        else:
+            st = ['mask', [rng.random() < 0.6 for _ in range(cur)]]
+        steps.append(st)
+        cur = len(resolve_step(cur, st))
+    return steps
+
+
+def rand_sup(rng, pool, g, ins):
+    """a header that already carries counts and name tables, and the items it is used for"""
+    def cols(prob):
+        return [(nm, rng.choice([1, 1, 2, 3])) for nm in pool if rng.random() < prob]
+    mode = rng.choice(['loaded', 'loaded', 'loaded-lazy', 'loaded+geom', 'dict', 'dict'])
+    sup = {'mode': mode}
+    if mode == 'dict':
+        def table():
+            fs = schema_fields(cols(0.6))
+            rng.shuffle(fs)
+            if fs and rng.random() < 0.3:
+                fs.insert(rng.randrange(len(fs)), [])                     # an empty slot before a name
+            if rng.random() < 0.2:
+                fs += [[]] * rng.randint(1, 3) + [list(rng.choice(pool))]   # a name far behind
+            return fs[:10]
+        sup.update(sf=table(), pf=table(), ns=rng.choice([0, 1, 3, 7]), np=rng.choice([0, 1, 2, 5]), n=rng.choice([0, 2, 99]))
+    else:
+        pA, sA = cols(0.6), cols(0.6)
+        itemsA = rand_items_with(rng, pA, sA, rng.choice([0, 1, 2, 3]), 3)
+        pA, sA = items_schema(itemsA)
+        sup.update(itemsA=itemsA, sf=schema_fields(pA), pf=schema_fields(sA), ns=sum(k for _, k in pA), np=sum(k for _, k in sA),
+                   n=len(itemsA))
+        if mode == 'loaded+geom':
+            sup['gA'] = rand_geom(rng)
+    return sup
 
 
 def digit_boundary_lengths(upto):
@@ -1599,8 +2110,14 @@ def cases(rng, tier):
     bl = digit_boundary_lengths(10 ** 4)
     for i in range({'quick': 500, 'thorough': 6000, 'search': 1000}[tier]):
         L = rng.choice(bl) if i % 2 else rng.choice([51, 55, 56, 70, 90, 300])
-        out.append(mk_tckw(L, rand_sls(rng, 4, 5), rand_aff12(rng) if i % 3 == 0 else None))
+        out.append(mk_tckw(L, rand_sls(rng, 4 if i % 4 else 7, 5), rand_aff12(rng) if i % 3 == 0 else None,
+                           rng.choice(BUILDS) if i % 2 == 0 else None, rng.randrange(1 << 16), 'loaded' if i % 5 == 0 else None))
     out.append(mk_tckw(51, []))
+    out.append(mk_tckw(51, [], None, None, 0, 'loaded'))
+    # ---- ArraySequence views handed to save: histories of slice / list / integer-array / mask / range indexing and copies
+    for i in range({'quick': 500, 'thorough': 4000, 'search': 1000}[tier]):
+        sls = rand_sls(rng, 6, 4)
+        out.append(mk_view(rng.choice([51, 55, 70, 84, 85]), sls, rand_view_steps(rng, len(sls))))
     # ---- TCK file at byte level (whole file bytes compared with the model's, then read back)
     for i in range({'quick': 300, 'thorough': 4000, 'search': 600}[tier]):
         L = rng.choice([51, 55, 56, 60, 79, 80, 81, 82, 83, 84, 85, 86, 90, 120]) if i % 4 else rng.choice([977, 981, 982, 983, 984])
@@ -1660,8 +2177,26 @@ def cases(rng, tier):
         g = rand_geom(rng, simple=(i % 10 == 0))
         if i < 48:
             g['order'] = ORDERS[i]
-        out.append(mk_trk(g, rand_items(rng, 4, 4, 3), rng.choice([0, 0, 7, 1000, 4099]), rng.randrange(1 << 16),
-                          rand_aff12(rng) if i % 3 == 1 else None))
+        out.append(mk_trk(g, rand_items(rng, 4 if i % 4 else 7, 4, 3), rng.choice([0, 0, 7, 1000, 4099]), rng.randrange(1 << 16),
+                          rand_aff12(rng) if i % 3 == 1 else None, rng.choice(BUILDS) if i % 2 == 0 else None))
+    # ---- what save iterates over for a tractogram WITH named data after a history of indexing steps
+    for i in range({'quick': 400, 'thorough': 3000, 'search': 800}[tier]):
+        pool = sorted({tuple(rand_name(rng, 5)) for _ in range(3)})
+        pc = [(list(nm), rng.choice([1, 2])) for nm in pool if rng.random() < 0.5]
+        sc = [(list(nm), rng.choice([1, 2, 3])) for nm in pool if rng.random() < 0.5]
+        its = rand_items_with(rng, pc, sc, rng.randint(0, 6), 4)
+        out.append(mk_tview(its, rand_view_steps(rng, len(its)), rng.randrange(1 << 16)))
+    # ---- TRK save under a header that ALREADY carries counts and name tables (header of a loaded file with more /
+    #      fewer / other / the same named arrays, or a hand-made dict), crossed with how the tractogram was built
+    for i in range({'quick': 600, 'thorough': 5000, 'search': 1200}[tier]):
+        g = rand_geom(rng, simple=(i % 10 == 0))
+        pool = sorted({tuple(rand_name(rng, 6)) for _ in range(4)})
+        ins = rng.randrange(1 << 16)
+        sup = rand_sup(rng, [list(x) for x in pool], g, ins)
+        pB = [(list(nm), rng.choice([1, 1, 2, 3])) for nm in pool if rng.random() < 0.45]
+        sB = [(list(nm), rng.choice([1, 1, 2, 3])) for nm in pool if rng.random() < 0.45]
+        items = rand_items_with(rng, pB, sB, rng.choice([0, 1, 2, 3, 4]), 3)
+        out.append(mk_trkh(g, items, rng.choice([0, 0, 7, 1000]), ins, sup, rng.choice(BUILDS) if i % 3 == 0 else None))
     # ---- TRK record reader, histories, positions, count mismatches
     for i in range({'quick': 3000, 'thorough': 40000, 'search': 6000}[tier]):
         ns, np_ = rng.choice([0, 0, 1, 2]), rng.choice([0, 0, 1, 3])
@@ -1884,6 +2419,46 @@ def _seek_spec(fn):
     raise _Untranslatable(fn.name + ': the seek back to start_position is neither in a finally clause nor the last statement')
 
 
+def _name_table_spec(fn, field, const):
+    """how `TrkFile.save` fills the header field `field` ('scalar_name' / 'property_name'): returns 'zero-table' when the
+    names are written into a fresh `np.zeros(<const>, dtype='S20')` table that then replaces the WHOLE field
+    (`header[field][:] = table`), 'in-place' when they are written straight into `header[field][i]`"""
+    assigns = [n for n in ast.walk(fn) if isinstance(n, ast.Assign) and len(n.targets) == 1]
+    whole = [n for n in assigns if ast.unparse(n.targets[0]) == f"header['{field}'][:]"]
+    inplace = [n for n in assigns if ast.unparse(n.targets[0]) == f"header['{field}'][i]"]
+    other = [n for n in assigns if ast.unparse(n.targets[0]).startswith(f"header['{field}']") and n not in whole and n not in inplace]
+    if other:
+        raise _Untranslatable(f'unexpected assignment to header[{field!r}]: ' + ast.unparse(other[0]))
+    if inplace and not whole:
+        return 'in-place'
+    if len(whole) != 1 or inplace or not isinstance(whole[0].value, ast.Name):
+        raise _Untranslatable(f'header[{field!r}] is not assigned exactly once as a whole from a local table')
+    tbl = whole[0].value.id
+    inits = [n for n in assigns if ast.unparse(n.targets[0]) == tbl]
+    if len(inits) != 1 or ast.unparse(inits[0].value) != f"np.zeros({const}, dtype='S20')":
+        raise _Untranslatable(f'{tbl} is not initialised once as np.zeros({const}, dtype=\'S20\')')
+    loops = [n for n in ast.walk(fn) if isinstance(n, ast.For) and ast.unparse(n.target) in ('i, name', '(i, name)')
+             and any(isinstance(b, ast.Assign) and ast.unparse(b.targets[0]) == f'{tbl}[i]' for b in n.body)]
+    if len(loops) != 1 or not ast.unparse(loops[0].iter).startswith('enumerate('):
+        raise _Untranslatable(f'the loop filling {tbl} was not found')
+    fill = [b for b in loops[0].body if isinstance(b, ast.Assign) and ast.unparse(b.targets[0]) == f'{tbl}[i]'][0]
+    if ast.unparse(fill.value) != 'encode_value_in_name(nb_values, name)':
+        raise _Untranslatable('name table slot is filled with ' + ast.unparse(fill.value))
+    stores = [n for n in ast.walk(fn) if isinstance(n, ast.Subscript) and isinstance(n.ctx, ast.Store)
+              and ast.unparse(n.value) == tbl]
+    if len(stores) != 1 or not inits[0].lineno < loops[0].lineno < whole[0].lineno:
+        raise _Untranslatable(f'{tbl} is written elsewhere too')
+    return 'zero-table'
+
+
+def _empty_branch_zeroes(fn):
+    """does the `except StopIteration:` handler of `TrkFile.save` (empty tractogram) set the three counts to 0?"""
+    for h in [n for n in ast.walk(fn) if isinstance(n, ast.ExceptHandler) and n.type is not None and ast.unparse(n.type) == 'StopIteration']:
+        z = {ast.unparse(st.targets[0]) for st in h.body if isinstance(st, ast.Assign) and ast.unparse(st.value) == '0'}
+        return {'header[Field.NB_STREAMLINES]', 'header[Field.NB_SCALARS_PER_POINT]', 'header[Field.NB_PROPERTIES_PER_STREAMLINE]'} <= z
+    raise _Untranslatable('no `except StopIteration` branch in TrkFile.save')
+
+
 def regen():
     src_tck = open(os.path.join(REPO, 'nibabel', 'streamlines', 'tck.py')).read()
     src_trk = open(os.path.join(REPO, 'nibabel', 'streamlines', 'trk.py')).read()
@@ -1950,6 +2525,13 @@ def regen():
     seek_trk = _seek_spec(_find_func(ast.parse(src_trk), 'TrkFile', '_read'))
     from nibabel.streamlines.header import Field
     hd = trk.header_2_dtype
+    fsave = _find_func(ast.parse(src_trk), 'TrkFile', 'save')
+    tbl_specs = (_name_table_spec(fsave, 'scalar_name', 'MAX_NB_NAMED_SCALARS_PER_POINT'),
+                 _name_table_spec(fsave, 'property_name', 'MAX_NB_NAMED_PROPERTIES_PER_STREAMLINE'))
+    if tbl_specs[0] != tbl_specs[1]:
+        raise _Untranslatable('the two name tables of TrkFile.save are filled in different ways: %s / %s' % tbl_specs)
+    in_place = 'true' if tbl_specs[0] == 'in-place' else 'false'
+    empty_zeroes = 'true' if _empty_branch_zeroes(fsave) else 'false'
 
     def off(name, kind=None):
         dt, o = hd.fields[name][0], hd.fields[name][1]
@@ -1970,6 +2552,7 @@ def regen():
         return '⟨.%s, %s⟩' % (sp[0], 'true' if sp[1] else 'false')
     body = f'''import NibabelModel.Model.C16
 import NibabelModel.Model.C16_Ext
+import NibabelModel.Model.C16_Save
 /-! GENERATED on every run by harness/props/c16.py `regen()` from nibabel/streamlines/tck.py and trk.py
     of the working tree — do not edit.  The `_eq_model` theorems tie the hand-written model to the
     current source text; the property theorems in Props/C16 are stated about these definitions. -/
@@ -2018,6 +2601,18 @@ def trkOffN : Nat := {offs['N']}
 def trkOffVersion : Nat := {offs['Version']}
 def trkOffHdrSize : Nat := {offs['HdrSize']}
 
+/-- read off the AST of `TrkFile.save`: are the encoded names written straight into the (inherited) header tables
+    (`header['scalar_name'][i] = …`), or into a fresh `np.zeros(MAX_…, dtype='S20')` table that then replaces the whole
+    field (`header['scalar_name'][:] = table`)?  And does the empty-tractogram branch zero the three counts? -/
+def trkNameTablesInPlace : Bool := {in_place}
+def trkEmptyZeroesCounts : Bool := {empty_zeroes}
+def trkZeroTable : List (List Nat) := List.replicate trkMaxScalars (List.replicate trkNameFieldLen 0)
+
+theorem trkSaveHeader_eq_model :
+    (∀ sup items, Nb.C16.trkSaveItemsFrom trkNameTablesInPlace sup items = Nb.C16.trkSaveItemsH sup items) ∧
+    trkEmptyZeroesCounts = true ∧ trkZeroTable = Nb.C16.zeroFields ∧
+    List.replicate trkMaxProps (List.replicate trkPropFieldLen 0) = Nb.C16.zeroFields :=
+  ⟨fun _ _ => rfl, by decide, by decide, by decide⟩
 theorem readSeek_eq_model : tckReadSeek = Nb.C16.seekFixed ∧ trkReadSeek = Nb.C16.seekFixed := by decide
 theorem trkOffsets_eq_model :
     trkOffNs = Nb.C16.trkOffNs ∧ trkOffScalarNames = Nb.C16.trkOffScalarNames ∧ trkOffNp = Nb.C16.trkOffNp ∧
@@ -2037,4 +2632,4 @@ end Nb.C16.Gen
 '''
     write_if_changed(os.path.join(LEAN, 'NibabelModel', 'Generated', 'C16.lean'), body)
     return ['Nb.C16.Gen.tckHdrOffset_eq_model', 'Nb.C16.Gen.tckBufferBytes_eq_model', 'Nb.C16.Gen.consts_eq_model',
-            'Nb.C16.Gen.readSeek_eq_model', 'Nb.C16.Gen.trkOffsets_eq_model']
+            'Nb.C16.Gen.readSeek_eq_model', 'Nb.C16.Gen.trkOffsets_eq_model', 'Nb.C16.Gen.trkSaveHeader_eq_model']
